@@ -280,9 +280,14 @@ fn oracle_addr<Pk: KeyOf>(shape: &Shape, d: &Descriptor<Pk>) -> Result<(), Strin
     Ok(())
 }
 
-fn emit_outputs<Pk: KeyOf>(out: &mut Out, shape: &Shape, secp: &Secp256k1<secp256k1::All>) -> bool {
-    let d = match build::<Pk>(shape) { Ok(d) => d, Err(_) => { out.count("rejected-by-constructor"); return false; } };
+/// `xonly_leaves`: the keys of the wire are what the model's key table says (false only for tap
+/// trees whose leaf keys are FULL keys of atoms 0..: the model would push 33 bytes)
+fn emit_outputs<Pk: KeyOf>(out: &mut Out, shape: &Shape, secp: &Secp256k1<secp256k1::All>, model_keys: bool) -> bool {
     let w = shape.wire();
+    let built = build::<Pk>(shape);
+    // constructor verdict against the entry-point model: a false rejection is a C mismatch
+    if model_keys { out.line(&format!("C build {}", w), if built.is_ok() { "OK" } else { "ERR" }); }
+    let d = match built { Ok(d) => d, Err(_) => { out.count("rejected-by-constructor"); return false; } };
     out.count(&format!("type {}", shape.ty()));
     let is_tr = matches!(shape, Shape::Tr(..));
     let spk = d.script_pubkey();
@@ -313,7 +318,7 @@ fn emit_outputs<Pk: KeyOf>(out: &mut Out, shape: &Shape, secp: &Secp256k1<secp25
         }
     }
     // taproot: the model computes the Merkle root itself; rust-bitcoin supplies root -> output key
-    if let Shape::Tr(k, _) = shape {
+    if let (Shape::Tr(k, _), true) = (shape, model_keys) {
         if let Ok((root, key)) = tr_root_and_key::<Pk>(*k, &d, secp) {
             out.line(&format!("C trspk {} {} {}", w, root, hex(&key.serialize())), &hx(&spk));
         }
@@ -326,11 +331,11 @@ fn emit_outputs<Pk: KeyOf>(out: &mut Out, shape: &Shape, secp: &Secp256k1<secp25
 }
 
 fn emit_shape(out: &mut Out, shape: &Shape, secp: &Secp256k1<secp256k1::All>) -> bool {
-    if matches!(shape, Shape::Tr(..)) { emit_outputs::<XOnlyPublicKey>(out, shape, secp) } else { emit_outputs::<PublicKey>(out, shape, secp) }
+    if matches!(shape, Shape::Tr(..)) { emit_outputs::<XOnlyPublicKey>(out, shape, secp, true) } else { emit_outputs::<PublicKey>(out, shape, secp, true) }
 }
 
 fn extra_defs(out: &mut Out) {
-    for id in (10..21).chain(104..106) {
+    for id in (10..31).chain(104..108) {
         let k = full_key(id);
         let ser = k.to_bytes();
         let sort = k.inner.serialize();
@@ -353,6 +358,37 @@ fn part_outputs(out: &mut Out, thorough: bool, rng: &mut Rng, secp: &Secp256k1<s
         for s in [Shape::Pkh(k), Shape::Wpkh(k), Shape::ShWpkh(k)] { if emit_shape(out, &s, secp) { n += 1; } }
     }
     for k in 200..210 { if emit_shape(out, &Shape::Tr(k, vec![]), secp) { n += 1; } }
+    // cell 5: key-only taproot over FULL keys (Descriptor<bitcoin::PublicKey>), both parities
+    for k in 0..10 { if emit_outputs::<PublicKey>(out, &Shape::Tr(k, vec![]), secp, true) { out.count("type tr over full keys"); n += 1; } }
+    // cell 2: directed constructor expectations
+    let mut expect = |out: &mut Out, s: Shape, accept: bool| {
+        let ok = if matches!(s, Shape::Tr(..)) { build::<XOnlyPublicKey>(&s).is_ok() } else { build::<PublicKey>(&s).is_ok() };
+        out.line(&format!("J buildexpect {} {} {}", s.wire(), if accept { "accept" } else { "reject" }, if ok { "OK" } else { "ERR" }), "ok");
+        out.line(&format!("C build {}", s.wire()), if ok { "OK" } else { "ERR" });
+    };
+    let cks = |n: u32| -> Vec<u32> { (0..n).collect() };
+    let uks = |n: u32| -> Vec<u32> { (100..100 + n).collect() };
+    expect(out, Shape::Pkh(100), true);
+    expect(out, Shape::Sh(Node::Check(Box::new(Node::PkK(100)))), true);
+    expect(out, Shape::Sh(Node::Check(Box::new(Node::PkH(101)))), true);
+    expect(out, Shape::Bare(Node::Check(Box::new(Node::PkK(100)))), true);
+    expect(out, Shape::Sh(Node::SortedMulti(2, cks(15))), true);       // 513-byte redeem script
+    expect(out, Shape::Sh(Node::Multi(15, cks(15))), true);
+    expect(out, Shape::Sh(Node::SortedMulti(1, uks(7))), true);        // 465 bytes
+    expect(out, Shape::Sh(Node::Multi(7, uks(7))), true);
+    expect(out, Shape::Wsh(Node::SortedMulti(20, cks(20))), true);
+    expect(out, Shape::ShWsh(Node::Multi(1, cks(20))), true);
+    expect(out, Shape::Sh(Node::SortedMulti(2, cks(16))), false);      // 547 bytes > 520
+    expect(out, Shape::Sh(Node::Multi(1, cks(16))), false);
+    expect(out, Shape::Sh(Node::SortedMulti(1, uks(8))), false);       // 531 bytes
+    expect(out, Shape::Wsh(Node::SortedMulti(1, cks(21))), false);
+    expect(out, Shape::Wpkh(100), false);
+    expect(out, Shape::ShWpkh(100), false);
+    expect(out, Shape::Wsh(Node::Check(Box::new(Node::PkK(100)))), false);
+    expect(out, Shape::Wsh(Node::Check(Box::new(Node::PkH(100)))), false);
+    expect(out, Shape::ShWsh(Node::SortedMulti(1, vec![0, 100])), false);
+    expect(out, Shape::Wsh(Node::MultiA(1, vec![0, 1])), false);
+    expect(out, Shape::Tr(200, vec![(0, Node::Multi(1, vec![200, 201]))]), false);
     let depth = if thorough { 3 } else { 2 };
     let quota = if thorough { 80 } else { 25 };
     let mut tap_pool: Vec<Node> = vec![];
@@ -363,6 +399,20 @@ fn part_outputs(out: &mut Out, thorough: bool, rng: &mut Rng, secp: &Secp256k1<s
             let sz = 8 + rng.below(30);
             if let Some(nd) = ast::random_b(ctx, rng, sz) { frags.push(nd); }
         }
+        // designated fragments (all hash kinds, both lock units, one-child thresholds, raw key hashes,
+        // uncompressed keys in every key position …) in EVERY tier
+        let corpus = ast::dimension_corpus(ctx);
+        out.count(&format!("dimension-corpus {} {}", ctx.name(), corpus.len()));
+        if ctx == CtxK::Tap {
+            for (i, nd) in corpus.iter().enumerate() {
+                if emit_shape(out, &Shape::Tr(200 + (i % 10) as u32, vec![(0, nd.clone())]), secp) { n += 1; }
+                // cell 5: the same tree in a Descriptor<bitcoin::PublicKey> (internal key = FULL key i%10, both
+                // parities; the leaf keys are the full keys whose x-only form the wire atoms 200.. denote)
+                let s = Shape::Tr((i % 10) as u32, vec![(1, nd.clone()), (1, corpus[(i + 1) % corpus.len()].clone())]);
+                if emit_outputs::<PublicKey>(out, &s, secp, true) { out.count("type tr over full keys"); n += 1; }
+            }
+        }
+        frags.extend(corpus);
         for nd in frags {
             let shapes: Vec<Shape> = match ctx {
                 CtxK::Bare => vec![Shape::Bare(nd)],
@@ -460,7 +510,7 @@ fn sm_spk(s: &Shape, full: bool) -> Result<(ScriptBuf, Option<ScriptBuf>), Strin
 
 fn part_sortedmulti(out: &mut Out, thorough: bool, rng: &mut Rng, secp: &Secp256k1<secp256k1::All>) -> u64 {
     let mut n_cases = 0u64;
-    let sizes: Vec<usize> = if thorough { (1..=20).collect() } else { vec![1, 2, 3, 4, 5, 7, 12, 15, 20] };
+    let sizes: Vec<usize> = if thorough { (1..=20).collect() } else { vec![1, 2, 3, 4, 5, 7, 12, 15, 16, 20] };
     for w in [SmWrap::Wsh, SmWrap::Sh, SmWrap::ShWsh, SmWrap::NestedWsh, SmWrap::Tr, SmWrap::TrFull, SmWrap::ShMixed] {
         let full = w == SmWrap::TrFull;
         for &n in &sizes {
@@ -477,7 +527,12 @@ fn part_sortedmulti(out: &mut Out, thorough: bool, rng: &mut Rng, secp: &Secp256
                 let keys: Vec<u32> = pool[..n].to_vec();
                 let k = 1 + rng.below(n);
                 let base = sm_shape(w, k, &keys);
-                let (spk0, expl0) = match sm_spk(&base, full) { Ok(x) => x, Err(_) => { out.count("sortedmulti rejected-by-constructor"); continue; } };
+                let (spk0, expl0) = match sm_spk(&base, full) { Ok(x) => x, Err(_) => {
+                    out.count("sortedmulti rejected-by-constructor");
+                    // judged: the entry-point model must reject it too (sh: 16+ keys exceed 520 bytes)
+                    if !full { out.line(&format!("C build {}", base.wire()), "ERR"); }
+                    continue;
+                } };
                 n_cases += 1;
                 out.count(&format!("sortedmulti n={}", n));
                 let perms: Vec<Vec<usize>> = if n <= 5 { permutations(n) } else {
@@ -508,19 +563,80 @@ fn part_sortedmulti(out: &mut Out, thorough: bool, rng: &mut Rng, secp: &Secp256
             }
         }
     }
-    // API constructors agree with the Terminal form
-    for n in [1usize, 3, 7] {
-        let keys: Vec<PublicKey> = (0..n as u32).rev().map(full_key).collect();
-        let ids: Vec<u32> = (0..n as u32).rev().collect();
-        let th = || Threshold::new(1, keys.clone()).unwrap();
-        let r = (|| -> Result<(), String> {
+    // cell 6: the API constructors (`Descriptor::new_{wsh,sh,sh_wsh}_sortedmulti`) agree with the Terminal
+    // form AND with the hand-built BIP67 script, for every k in 1..=n, n up to 15 (sh) / 20 (wsh),
+    // and over mixed compressed / uncompressed keys (sh)
+    let ctor_sets: Vec<(&str, Vec<u32>)> = vec![
+        ("c1", vec![4]), ("c3", vec![2, 1, 0]), ("c7", (0..7).rev().collect()), ("c15", (0..15).rev().collect()),
+        ("c20", (0..20).rev().collect()), ("mix4", vec![101, 3, 103, 1]), ("mix7", vec![100, 5, 105, 2, 102, 0, 6]),
+    ];
+    for (name, ids) in &ctor_sets {
+        let n = ids.len();
+        let keys: Vec<PublicKey> = ids.iter().map(|i| full_key(*i)).collect();
+        let mixed = ids.iter().any(|i| *i >= 100);
+        let ks: Vec<usize> = if thorough || n <= 7 { (1..=n).collect() } else { vec![1, 2, n / 2, n - 1, n] };
+        for k in ks {
+            let th = || Threshold::new(k, keys.clone()).map_err(|e| e.to_string());
             let e = |e: miniscript::Error| e.to_string();
-            if Descriptor::new_wsh_sortedmulti(th()).map_err(e)? != build::<PublicKey>(&sm_shape(SmWrap::Wsh, 1, &ids))? { return Err("new_wsh_sortedmulti".into()); }
-            if Descriptor::new_sh_sortedmulti(th()).map_err(e)? != build::<PublicKey>(&sm_shape(SmWrap::Sh, 1, &ids))? { return Err("new_sh_sortedmulti".into()); }
-            if Descriptor::new_sh_wsh_sortedmulti(th()).map_err(e)? != build::<PublicKey>(&sm_shape(SmWrap::ShWsh, 1, &ids))? { return Err("new_sh_wsh_sortedmulti".into()); }
-            Ok(())
-        })();
-        out.line(&format!("J rustoracle sortedmulti-ctors n={} {}", n, verdict(r)), "ok");
+            let manual = manual_multisig(k, ids);
+            let mut r: Result<(), String> = Ok(());
+            let mut check = |what: &str, ctor: Result<Descriptor<PublicKey>, String>, wrap: SmWrap, must_exist: bool| {
+                if r.is_err() { return; }
+                let terminal = build::<PublicKey>(&sm_shape(wrap, k, ids));
+                match (ctor, terminal) {
+                    (Ok(a), Ok(b)) => {
+                        if a != b { r = Err(format!("{} differs from the Terminal form", what)); }
+                        else if a.explicit_script().ok() != Some(manual.clone()) { r = Err(format!("{} script is not the hand-built BIP67 multisig", what)); }
+                    }
+                    (Err(_), Err(_)) => if must_exist { r = Err(format!("{} rejected", what)); },
+                    (Ok(_), Err(e2)) => r = Err(format!("{} accepted but Terminal form rejected: {}", what, e2)),
+                    (Err(e1), Ok(_)) => r = Err(format!("{} rejected but Terminal form accepted: {}", what, e1)),
+                }
+            };
+            // wsh / sh(wsh): compressed keys only; sh: at most 15 compressed / 7 uncompressed-mixed keys fit 520 bytes
+            check("new_wsh_sortedmulti", th().and_then(|t| Descriptor::new_wsh_sortedmulti(t).map_err(e)), SmWrap::Wsh, !mixed);
+            check("new_sh_wsh_sortedmulti", th().and_then(|t| Descriptor::new_sh_wsh_sortedmulti(t).map_err(e)), SmWrap::ShWsh, !mixed);
+            check("new_sh_sortedmulti", th().and_then(|t| Descriptor::new_sh_sortedmulti(t).map_err(e)), SmWrap::Sh, n <= 15 && (!mixed || n <= 7));
+            drop(check);
+            out.line(&format!("J rustoracle sortedmulti-ctors {} k={} {}", name, k, verdict(r)), "ok");
+        }
+    }
+    // cell 6: a point and its negation (02X / 03X: equal x-only keys) in one sortedmulti_a over FULL keys: the
+    // x-only sort keys tie and the pushes are identical, so every listing order gives the same output
+    {
+        let p = full_key(3);
+        let neg = PublicKey::new(p.inner.negate(secp));
+        let q = full_key(7);
+        let ik = full_key(9);
+        let mk = |order: &[PublicKey]| -> Result<Descriptor<PublicKey>, String> {
+            let th = Threshold::new(2, order.to_vec()).map_err(|e| e.to_string())?;
+            let ms = Miniscript::<PublicKey, Tap>::from_ast(miniscript::Terminal::SortedMultiA(th)).map_err(|e| e.to_string())?;
+            Descriptor::new_tr(ik, Some(TapTree::leaf(Arc::new(ms)))).map_err(|e| e.to_string())
+        };
+        let orders: Vec<Vec<PublicKey>> = permutations(3).into_iter().map(|pm| pm.iter().map(|i| [p, neg, q][*i]).collect()).collect();
+        let built: Vec<Result<Descriptor<PublicKey>, String>> = orders.iter().map(|o| mk(o)).collect();
+        if built.iter().all(|b| b.is_err()) {
+            // duplicate x-only keys may be refused by the leaf validation: not a C16 claim
+            out.count("observation: tr(sortedmulti_a) over a point and its negation is rejected by the constructor");
+        } else {
+            let mut xs = vec![p.inner.x_only_public_key().0, neg.inner.x_only_public_key().0, q.inner.x_only_public_key().0];
+            xs.sort_by_key(|x| x.serialize());
+            let mut b = Builder::new();
+            for (i, x) in xs.iter().enumerate() { b = b.push_x_only_key(x).push_opcode(if i == 0 { opcodes::all::OP_CHECKSIG } else { opcodes::all::OP_CHECKSIGADD }); }
+            let manual = b.push_int(2).push_opcode(opcodes::all::OP_NUMEQUAL).into_script();
+            let r = (|| -> Result<(), String> {
+                let first = built[0].as_ref().map_err(|e| e.clone())?;
+                for (i, d) in built.iter().enumerate() {
+                    let d = d.as_ref().map_err(|e| format!("order {} rejected: {}", i, e))?;
+                    if d.script_pubkey() != first.script_pubkey() { return Err(format!("order {} gives another scriptPubKey", i)); }
+                    if let Descriptor::Tr(tr) = d {
+                        if tr.leaves().next().map(|l| l.miniscript().encode()) != Some(manual.clone()) { return Err(format!("order {}: leaf is not the hand-built x-only sorted script", i)); }
+                    }
+                }
+                Ok(())
+            })();
+            out.line(&format!("J rustoracle sortperm tr(9;0:sortedmulti_a(2,3,neg3,7)) {}", verdict(r)), "ok");
+        }
     }
     // regression inputs of a former finding (fixed in /repo 2f8a2bb0): the same point listed compressed
     // and uncompressed used to keep its listing order; judged like every other case now
@@ -659,7 +775,7 @@ fn render_dpk(w: &World, k: &DescriptorPublicKey) -> String {
 
 /// a descriptor over symbolic keys
 #[derive(Clone)]
-struct KCase { shape: Shape, keys: BTreeMap<u32, SKey> }
+struct KCase { shape: Shape, keys: BTreeMap<u32, SKey>, texts: Option<BTreeMap<u32, String>> }
 impl KCase {
     fn wire(&self) -> String {
         format!("{}@{}", self.shape.wire(), self.keys.iter().map(|(a, k)| format!("{}={}", a, k.wire())).collect::<Vec<_>>().join(","))
@@ -695,7 +811,78 @@ where Q: MiniscriptKey<Sha256 = sha256::Hash, Hash256 = hash256::Hash, Ripemd160
 }
 
 fn build_dpk(w: &World, c: &KCase) -> Result<Descriptor<DescriptorPublicKey>, String> {
+    if let Some(t) = &c.texts { return desc_from_text(&c.shape, t); }
     build_with(&c.shape, &|a| c.keys.get(&a).map(|k| to_real(w, k)))
+}
+
+/// the descriptor TEXT with every key written out (`[fp/path]xpub…/1/<0;1>/*`), parsed by the library
+fn desc_text(shape: &Shape, texts: &BTreeMap<u32, String>) -> Result<String, String> {
+    let mut s = if matches!(shape, Shape::Tr(..)) { format!("{:#}", build::<XOnlyPublicKey>(shape)?) } else { format!("{:#}", build::<PublicKey>(shape)?) };
+    let atoms = shape.atoms_pre();
+    for a in &atoms {
+        let ph = if matches!(shape, Shape::Tr(..)) { xonly_key(*a).to_string() } else { full_key(*a).to_string() };
+        s = s.replace(&ph, &format!("@@{}@@", a));
+    }
+    for a in &atoms { s = s.replace(&format!("@@{}@@", a), texts.get(a).ok_or("no text")?); }
+    Ok(s)
+}
+fn desc_from_text(shape: &Shape, texts: &BTreeMap<u32, String>) -> Result<Descriptor<DescriptorPublicKey>, String> {
+    let t = desc_text(shape, texts)?;
+    catch(|| Descriptor::<DescriptorPublicKey>::from_str(&t).map_err(|e| e.to_string())).and_then(|x| x)
+}
+
+/// a key expression as BIP380/389 TEXT describes it: one optional `<a;b;…>` step between a prefix and a suffix
+#[derive(Clone, Debug)]
+struct TKey { origin: Origin, x: usize, pre: Vec<Step>, alts: Option<Vec<Step>>, post: Vec<Step>, wc: Wc, style: u8 }
+impl TKey {
+    /// the structured value the text denotes, built WITHOUT the parser
+    fn skey(&self) -> SKey {
+        match &self.alts {
+            None => SKey::X { origin: self.origin.clone(), x: self.x, path: self.pre.iter().chain(self.post.iter()).cloned().collect(), wc: self.wc },
+            Some(a) => SKey::M { origin: self.origin.clone(), x: self.x, wc: self.wc,
+                paths: a.iter().map(|s| self.pre.iter().cloned().chain(std::iter::once(*s)).chain(self.post.iter().cloned()).collect()).collect() },
+        }
+    }
+    /// style 0: `h` everywhere, 1: `'` everywhere, 2: alternating
+    fn text(&self, w: &World) -> String {
+        let mut n = 0usize;
+        let style = self.style;
+        let mut mark = move || -> &'static str { n += 1; match style { 0 => "h", 1 => "'", _ => if n % 2 == 0 { "h" } else { "'" } } };
+        let mut step = |s: &Step, mark: &mut dyn FnMut() -> &'static str| match s { Step::N(i) => i.to_string(), Step::H(i) => format!("{}{}", i, mark()) };
+        let mut t = String::new();
+        if let Some((f, p)) = &self.origin {
+            t.push_str(&format!("[{}", fp(*f)));
+            for s in p { t.push('/'); t.push_str(&step(s, &mut mark)); }
+            t.push(']');
+        }
+        t.push_str(&w.xpubs[self.x].to_string());
+        for s in &self.pre { t.push('/'); t.push_str(&step(s, &mut mark)); }
+        if let Some(a) = &self.alts {
+            t.push_str("/<");
+            t.push_str(&a.iter().map(|s| step(s, &mut mark)).collect::<Vec<_>>().join(";"));
+            t.push('>');
+        }
+        for s in &self.post { t.push('/'); t.push_str(&step(s, &mut mark)); }
+        match self.wc { Wc::None => {}, Wc::Unh => t.push_str("/*"), Wc::Hard => { t.push_str("/*"); t.push_str(mark()); } }
+        t
+    }
+}
+fn single_text(k: &SKey) -> Option<String> {
+    if let SKey::Single { origin, id } = k {
+        let o = match origin { None => String::new(), Some((f, p)) => format!("[{}{}]", fp(*f), p.iter().map(|s| match s { Step::N(i) => format!("/{}", i), Step::H(i) => format!("/{}h", i) }).collect::<String>()) };
+        Some(format!("{}{}", o, if *id >= 200 { xonly_key(*id).to_string() } else { full_key(*id).to_string() }))
+    } else { None }
+}
+
+/// cell 1: `DescriptorPublicKey::from_str(text)` against the structured value built without the parser
+fn emit_keytext(out: &mut Out, w: &World, t: &TKey) {
+    let text = t.text(w);
+    let want = to_real(w, &t.skey());
+    let v = match catch(|| DescriptorPublicKey::from_str(&text)).unwrap_or_else(|_| Err(miniscript::descriptor::DescriptorKeyParseError::MalformedKeyData(miniscript::descriptor::MalformedKeyDataKind::InvalidMultiIndexStep))) {
+        Ok(k) => if k == want { Ok(()) } else { Err(format!("parsed {} from {}", render_dpk(w, &k), text.replace(&w.xpubs[t.x].to_string(), "X"))) },
+        Err(e) => Err(format!("rejected: {}", e)),
+    };
+    out.line(&format!("J rustoracle keytext {} style={} {}", t.skey().wire(), t.style, verdict(v)), "ok");
 }
 
 /// keys of a real descriptor in `for_each_key` order (own walk: leaves, then internal key)
@@ -830,14 +1017,60 @@ fn independent_derived(w: &mut World, c: &KCase, i: u64) -> Option<Descriptor<Pu
     build_with(&c.shape, &|a| m.get(&a).cloned()).ok()
 }
 
+/// cell 3: every output accessor of a `Descriptor<DefiniteDescriptorKey>` (keys derived lazily through
+/// `ToPublicKey for DefiniteDescriptorKey`, sorted AFTER derivation) against the descriptor over
+/// independently derived plain keys
+fn definite_outputs(dd: &Descriptor<miniscript::descriptor::DefiniteDescriptorKey>, ind: &Descriptor<PublicKey>) -> Result<(), String> {
+    if dd.script_pubkey() != ind.script_pubkey() { return Err("script_pubkey".into()); }
+    if dd.explicit_script().ok() != ind.explicit_script().ok() { return Err("explicit_script".into()); }
+    if dd.script_code().ok() != ind.script_code().ok() { return Err("script_code".into()); }
+    if dd.unsigned_script_sig() != ind.unsigned_script_sig() { return Err("unsigned_script_sig".into()); }
+    for net in [Network::Bitcoin, Network::Regtest] {
+        if dd.address(net).ok().map(|a| a.to_string()) != ind.address(net).ok().map(|a| a.to_string()) { return Err(format!("address {:?}", net)); }
+    }
+    Ok(())
+}
+
 fn catch<T>(f: impl FnOnce() -> T) -> Result<T, String> { catch_unwind(AssertUnwindSafe(f)).map_err(|_| "PANIC".to_string()) }
 
 fn emit_keys(out: &mut Out, w: &mut World, c: &KCase, indices: &[u64]) {
-    let d = match build_dpk(w, c) { Ok(d) => d, Err(_) => { out.count("kdesc rejected-by-constructor"); return; } };
     let wire = c.wire();
+    // cell 4: the constructor verdict is judged against the key kinds the context permits
+    let plain_legacy = matches!(c.shape, Shape::Pkh(_) | Shape::Sh(_) | Shape::Bare(_));
+    let is_tr = c.is_tr();
+    let shape_atoms = c.shape.atoms_pre();
+    let must_reject = c.keys.iter().filter(|(a, _)| shape_atoms.contains(a)).any(|(_, k)| match k {
+        SKey::Single { id, .. } => ((100..200).contains(id) && !plain_legacy) || (*id >= 200 && !is_tr),
+        _ => false,
+    });
+    let built = build_dpk(w, c);
+    // the same key at two positions may be refused as a duplicate (sanity of tap leaves): no C16 claim either way
+    let reals: Vec<DescriptorPublicKey> = shape_atoms.iter().filter_map(|a| c.keys.get(a)).map(|k| to_real(w, k)).collect();
+    let dup = (0..reals.len()).any(|i| (0..i).any(|j| reals[i] == reals[j]));
+    if dup { out.count("kdesc with a repeated key"); }
+    // multipath keys of different arity: `Bare::translate_pk` re-runs the top-level arity check and refuses,
+    // `Wsh` / `Sh` / `Tr::translate_pk` do not (into_single_descriptors refuses later): an API inconsistency
+    // outside C16's statement -> observation, either verdict passes
+    let ars: Vec<usize> = shape_atoms.iter().filter_map(|a| c.keys.get(a)).filter_map(|k| if let SKey::M { paths, .. } = k { Some(paths.len()) } else { None }).filter(|n| *n > 1).collect();
+    let mixed_arity = ars.iter().any(|a| *a != ars[0]);
+    if mixed_arity && built.is_err() { out.count("observation: a constructor (translate_pk into bare) refuses multipath keys of different arity that wsh/sh/tr accept"); }
+    let v = match (&built, must_reject) {
+        (Err(_), false) if dup || mixed_arity => Ok(()),
+        (Ok(_), false) | (Err(_), true) => Ok(()),
+        (Ok(_), true) => Err("a key kind the context forbids was accepted".to_string()),
+        (Err(e), false) => Err(format!("rejected: {}", e)),
+    };
+    out.line(&format!("J rustoracle kbuild {} {}", wire, verdict(v)), "ok");
+    let d = match built { Ok(d) => d, Err(_) => { out.count("kdesc rejected-by-constructor"); return; } };
+    // cell 1: a case that carries key TEXT was parsed from it; it must be the structurally built descriptor
+    if c.texts.is_some() {
+        let mut plain = c.clone(); plain.texts = None;
+        let v = match build_dpk(w, &plain) { Ok(p) => if p == d { Ok(()) } else { Err("the parsed descriptor is not the structurally built one".to_string()) }, Err(e) => Err(e) };
+        out.line(&format!("J rustoracle desc-from-text {} {}", wire, verdict(v)), "ok");
+    }
     out.count(&format!("kdesc type {}", c.shape.ty()));
     for k in c.keys.values() {
-        out.count(match k { SKey::Single { id, .. } => if *id >= 200 { "key single-xonly" } else { "key single-full" },
+        out.count(match k { SKey::Single { id, .. } => if *id >= 200 { "key single-xonly" } else if *id >= 100 { "key single-uncompressed" } else { "key single-full" },
             SKey::X { wc: Wc::None, .. } => "key xpub", SKey::X { wc: Wc::Unh, .. } => "key xpub/*", SKey::X { .. } => "key xpub/*h",
             SKey::M { paths, .. } => match paths.len() { 1 => "key multi<1>", 2 => "key multi<2>", 3 => "key multi<3>", _ => "key multi<4+>" } });
     }
@@ -850,6 +1083,10 @@ fn emit_keys(out: &mut Out, w: &mut World, c: &KCase, indices: &[u64]) {
     let r = catch(|| d.into_definite());
     let ans = match &r { Err(p) => p.clone(), Ok(Ok(dd)) => format!("ok:{}", table(&c.shape, dd, &mut |k| render_dpk(w, k.as_descriptor_public_key()))), Ok(Err(e)) => format!("err:{}", err_name(e)) };
     out.line(&format!("C definite {}", wire), &ans);
+    if let Ok(Ok(dd)) = &r {
+        let v = match independent_derived(w, c, 0) { Some(ind) => catch(|| definite_outputs(dd, &ind)).and_then(|x| x), None => Err("no independent descriptor".into()) };
+        out.line(&format!("J rustoracle definite-outputs {} definite {}", wire, verdict(v)), "ok");
+    }
     for &i in indices {
         if i > u32::MAX as u64 { continue; }
         let iu = i as u32;
@@ -861,6 +1098,8 @@ fn emit_keys(out: &mut Out, w: &mut World, c: &KCase, indices: &[u64]) {
         if let Ok(Ok(dd)) = &r {
             let v = if same_shape(&d, dd) { Ok(()) } else { Err("shape changed".to_string()) };
             out.line(&format!("J rustoracle atindex-shape {} {} {}", wire, i, verdict(v)), "ok");
+            let v = match independent_derived(w, c, i) { Some(ind) => catch(|| definite_outputs(dd, &ind)).and_then(|x| x), None => Err("no independent descriptor".into()) };
+            out.line(&format!("J rustoracle definite-outputs {} {} {}", wire, i, verdict(v)), "ok");
         }
         let r2 = catch(|| d.derive_at_index(iu).into_result());
         let ans = match &r2 { Err(p) => p.clone(), Ok(Ok(dd)) => format!("ok:{}", table(&c.shape, dd, &mut |k| render_dpk(w, k.as_descriptor_public_key()))), Ok(Err(e)) => format!("err:{}", err_name(e)) };
@@ -909,6 +1148,7 @@ fn emit_keys(out: &mut Out, w: &mut World, c: &KCase, indices: &[u64]) {
         if v.len() != n { return Err(format!("{} descriptors for arity {}", v.len(), n)); }
         for j in 0..n {
             let mut sel = c.clone();
+            sel.texts = None;
             for k in sel.keys.values_mut() {
                 if let SKey::M { origin, x, paths, wc } = k.clone() { *k = SKey::X { origin, x, path: paths[j].clone(), wc }; }
             }
@@ -978,7 +1218,7 @@ fn gen_origin(rng: &mut Rng) -> Origin { if rng.below(3) == 0 { Some((1 + rng.be
 fn gen_wc(rng: &mut Rng, hard_pct: usize) -> Wc { match rng.below(100) { x if x < hard_pct => Wc::Hard, x if x < 60 => Wc::Unh, _ => Wc::None } }
 
 /// `arity`: Some(n) forces multipath keys to n alternatives; `clean`: no hardened steps / wildcards
-fn gen_key(rng: &mut Rng, tap: bool, multi_pct: usize, arity: Option<usize>, clean: bool, single_id: u32) -> SKey {
+fn gen_key(rng: &mut Rng, tap: bool, multi_pct: usize, arity: Option<usize>, clean: bool, single_id: u32, unc_pct: usize) -> SKey {
     let hard = if clean { 0 } else { 8 };
     let r = rng.below(100);
     if r < multi_pct {
@@ -993,7 +1233,8 @@ fn gen_key(rng: &mut Rng, tap: bool, multi_pct: usize, arity: Option<usize>, cle
         }
         SKey::M { origin: gen_origin(rng), x: rng.below(4), paths, wc: gen_wc(rng, hard) }
     } else if r < multi_pct + 18 {
-        SKey::Single { origin: gen_origin(rng), id: if tap && rng.coin() { 200 + single_id % 100 } else { single_id % 100 } }
+        let id = if rng.below(100) < unc_pct { 100 + single_id % 6 } else if tap && rng.coin() { 200 + single_id % 100 } else { single_id % 100 };
+        SKey::Single { origin: gen_origin(rng), id }
     } else {
         SKey::X { origin: gen_origin(rng), x: rng.below(4), path: gen_path(rng, 3, hard), wc: gen_wc(rng, hard) }
     }
@@ -1088,16 +1329,19 @@ fn part_keys(out: &mut Out, thorough: bool, rng: &mut Rng, w: &mut World) -> u64
             let mode = (round + rng.below(2)) % 4;
             let arity = 1 + rng.below(4);
             let mut keys = BTreeMap::new();
+            // cell 4: uncompressed `Single` keys where the context permits them (pkh / sh / bare), and
+            // occasionally where it does not (must be rejected)
+            let unc = if matches!(shape, Shape::Pkh(_) | Shape::Sh(_) | Shape::Bare(_)) { 60 } else if round % 5 == 4 { 25 } else { 0 };
             for (j, a) in atoms.iter().enumerate() {
                 let k = match mode {
-                    0 => gen_key(rng, tap, 0, None, true, j as u32 + 3),
-                    1 => gen_key(rng, tap, 15, None, false, j as u32 + 3),
-                    2 => gen_key(rng, tap, 60, Some(arity), true, j as u32 + 3),
-                    _ => { let cl = rng.coin(); gen_key(rng, tap, 60, None, cl, j as u32 + 3) }
+                    0 => gen_key(rng, tap, 0, None, true, j as u32 + 3, unc),
+                    1 => gen_key(rng, tap, 15, None, false, j as u32 + 3, unc),
+                    2 => gen_key(rng, tap, 60, Some(arity), true, j as u32 + 3, unc),
+                    _ => { let cl = rng.coin(); gen_key(rng, tap, 60, None, cl, j as u32 + 3, unc) }
                 };
                 keys.insert(*a, k);
             }
-            let c = KCase { shape, keys };
+            let c = KCase { shape, keys, texts: None };
             n_cases += 1;
             let idx: Vec<u64> = if round == 0 { indices.clone() } else { vec![*rng.pick(&indices), rng.below(1000) as u64] };
             emit_keys(out, w, &c, &idx);
@@ -1120,7 +1364,7 @@ fn part_keys(out: &mut Out, thorough: bool, rng: &mut Rng, w: &mut World) -> u64
     let c0 = |k: u32| Node::Check(Box::new(Node::PkK(k)));
     let andv = |a: Node, b: Node| Node::AndV(Box::new(Node::Verify(Box::new(a))), Box::new(b));
     let mut directed: Vec<KCase> = vec![];
-    let mk = |shape: Shape, ks: Vec<(u32, SKey)>| KCase { shape, keys: ks.into_iter().collect() };
+    let mk = |shape: Shape, ks: Vec<(u32, SKey)>| KCase { shape, keys: ks.into_iter().collect(), texts: None };
     // error precedence follows the translate order (right key first)
     directed.push(mk(Shape::Wsh(andv(c0(0), c0(1))), vec![(0, x(0, vec![Step::N(0)], Wc::Hard)), (1, m(1, 2, Wc::Unh))]));
     directed.push(mk(Shape::Wsh(andv(c0(0), c0(1))), vec![(0, m(1, 2, Wc::Unh)), (1, x(0, vec![Step::N(0)], Wc::Hard))]));
@@ -1133,10 +1377,86 @@ fn part_keys(out: &mut Out, thorough: bool, rng: &mut Rng, w: &mut World) -> u64
         directed.push(mk(Shape::Tr(200, vec![(0, c0(201))]), vec![(200, m(0, a, Wc::Unh)), (201, m(1, b, Wc::Unh))]));
         directed.push(mk(Shape::Tr(200, vec![(1, c0(201)), (1, c0(202))]), vec![(200, m(0, a, Wc::Unh)), (201, m(1, b, Wc::Unh)), (202, m(2, a, Wc::None))]));
     }
+    // cell 4: uncompressed `Single` keys in every wrapper (accepted in pkh / sh / bare only), an x-only
+    // `Single` key outside taproot (rejected), with and without origin
+    let su = |id: u32, o: Origin| SKey::Single { origin: o, id };
+    for (id, o) in [(100u32, None), (103, Some((77u32, vec![Step::H(44), Step::N(1)]))), (105, None)] {
+        directed.push(mk(Shape::Pkh(0), vec![(0, su(id, o.clone()))]));
+        directed.push(mk(Shape::Wpkh(0), vec![(0, su(id, o.clone()))]));
+        directed.push(mk(Shape::ShWpkh(0), vec![(0, su(id, o.clone()))]));
+        directed.push(mk(Shape::Bare(c0(0)), vec![(0, su(id, o.clone()))]));
+        directed.push(mk(Shape::Sh(andv(c0(0), c0(1))), vec![(0, su(id, o.clone())), (1, x(1, vec![Step::N(2)], Wc::Unh))]));
+        directed.push(mk(Shape::Sh(andv(Node::Check(Box::new(Node::PkH(0))), c0(1))), vec![(0, su(id, o.clone())), (1, su(id - 100, None))]));
+        directed.push(mk(Shape::Sh(Node::SortedMulti(2, vec![0, 1, 2])), vec![(0, su(id, o.clone())), (1, su(id - 100, None)), (2, x(0, vec![], Wc::Unh))]));
+        directed.push(mk(Shape::Sh(Node::Multi(1, vec![0, 1])), vec![(0, x(2, vec![Step::N(0)], Wc::Unh)), (1, su(id, o.clone()))]));
+        directed.push(mk(Shape::Wsh(andv(c0(0), c0(1))), vec![(0, su(id, o.clone())), (1, x(1, vec![], Wc::Unh))]));
+        directed.push(mk(Shape::ShWsh(c0(0)), vec![(0, su(id, o.clone()))]));
+        directed.push(mk(Shape::Tr(200, vec![]), vec![(200, su(id, o.clone()))]));
+        directed.push(mk(Shape::Tr(200, vec![(0, c0(201))]), vec![(200, x(0, vec![], Wc::Unh)), (201, su(id, o.clone()))]));
+    }
+    directed.push(mk(Shape::Wsh(c0(0)), vec![(0, su(203, None))]));
+    directed.push(mk(Shape::Pkh(0), vec![(0, su(204, None))]));
+    directed.push(mk(Shape::Sh(andv(c0(0), c0(1))), vec![(0, su(3, None)), (1, su(205, None))]));
     for c in directed {
         n_cases += 1;
         emit_keys(out, w, &c, &[0, 5, 0x8000_0000]);
         emit_find(out, w, &c, 0, 4, "2");
+    }
+    // cell 1: key-expression TEXT.  Directed forms, every hardened-marker style, then random ones.
+    let tk = |origin: Origin, x: usize, pre: Vec<Step>, alts: Option<Vec<Step>>, post: Vec<Step>, wc: Wc| TKey { origin, x, pre, alts, post, wc, style: 0 };
+    let mut tkeys: Vec<TKey> = vec![
+        tk(None, 0, vec![], None, vec![], Wc::None),
+        tk(None, 1, vec![], None, vec![], Wc::Unh),
+        tk(None, 2, vec![Step::N(1), Step::H(2), Step::N(3)], None, vec![], Wc::None),
+        tk(None, 0, vec![], Some(vec![Step::N(7), Step::N(9)]), vec![Step::N(3)], Wc::Unh),                  // /<7;9>/3/*
+        tk(None, 1, vec![Step::N(4)], Some(vec![Step::H(0), Step::H(1)]), vec![], Wc::Hard),                  // /4/<0h;1'>/*h
+        tk(None, 2, vec![], Some(vec![Step::N(0), Step::N(1), Step::N(2)]), vec![], Wc::None),               // /<0;1;2>
+        tk(None, 3, vec![Step::N(5)], Some(vec![Step::N(0), Step::H(1), Step::N(2), Step::N(3)]), vec![Step::H(8), Step::N(9)], Wc::Unh),
+        tk(Some((0x1234, vec![Step::H(44), Step::H(0), Step::N(1)])), 0, vec![Step::N(0)], None, vec![], Wc::Unh),
+        tk(Some((7, vec![])), 1, vec![], Some(vec![Step::N(0), Step::N(1)]), vec![], Wc::Unh),
+        tk(Some((65535, vec![Step::H(0x7fff_ffff), Step::N(0x7fff_ffff)])), 2, vec![Step::N(0x7fff_ffff)], Some(vec![Step::N(0), Step::N(0x7fff_ffff)]), vec![Step::H(0)], Wc::Hard),
+    ];
+    for _ in 0..(if thorough { 300 } else { 40 }) {
+        let alts = if rng.coin() { let n = 2 + rng.below(3); Some((0..n as u32).map(|i| if rng.below(6) == 0 { Step::H(i + 10 * rng.below(2) as u32) } else { Step::N(i + 10 * rng.below(3) as u32) }).collect::<Vec<_>>()) } else { None };
+        tkeys.push(tk(gen_origin(rng), rng.below(4), gen_path(rng, 2, 20), alts, gen_path(rng, 2, 20), gen_wc(rng, 15)));
+    }
+    for t in &tkeys {
+        for style in 0..3u8 { let mut t = t.clone(); t.style = style; emit_keytext(out, w, &t); }
+    }
+    // whole descriptors written as TEXT with such keys, parsed by `Descriptor::from_str`, then through every op
+    for round in 0..(if thorough { 6 } else { 1 }) {
+        for shape in key_shapes(rng) {
+            let shape = match &shape {
+                Shape::Wsh(n) => { let mut x = 0; Shape::Wsh(renumber(n, &mut x)) }
+                Shape::Sh(n) => { let mut x = 0; Shape::Sh(renumber(n, &mut x)) }
+                Shape::ShWsh(n) => { let mut x = 0; Shape::ShWsh(renumber(n, &mut x)) }
+                Shape::Bare(n) => { let mut x = 0; Shape::Bare(renumber(n, &mut x)) }
+                s => s.clone(),
+            };
+            let tap = matches!(shape, Shape::Tr(..));
+            let arity = 2 + (round + rng.below(2)) % 3;
+            let multipath = rng.below(3) != 0;
+            let mut keys = BTreeMap::new();
+            let mut texts = BTreeMap::new();
+            for (j, a) in shape.atoms_pre().iter().enumerate() {
+                if rng.below(6) == 0 {
+                    let unc = matches!(shape, Shape::Pkh(_) | Shape::Sh(_) | Shape::Bare(_)) && rng.coin();
+                    let k = SKey::Single { origin: gen_origin(rng), id: if unc { 100 + j as u32 % 6 } else if tap && rng.coin() { 203 + j as u32 } else { 3 + j as u32 } };
+                    texts.insert(*a, single_text(&k).unwrap());
+                    keys.insert(*a, k);
+                } else {
+                    let alts = if multipath && rng.below(3) != 0 { Some((0..arity as u32).map(|i| Step::N(i + 10 * rng.below(3) as u32)).collect::<Vec<_>>()) } else { None };
+                    let t = TKey { origin: gen_origin(rng), x: rng.below(4), pre: gen_path(rng, 2, 0), alts, post: gen_path(rng, 1, 0), wc: if rng.below(4) == 0 { Wc::None } else { Wc::Unh }, style: rng.below(3) as u8 };
+                    texts.insert(*a, t.text(w));
+                    keys.insert(*a, t.skey());
+                }
+            }
+            let c = KCase { shape, keys, texts: Some(texts) };
+            n_cases += 1;
+            out.count("kdesc built from text");
+            emit_keys(out, w, &c, &[0, 7, 0x8000_0000]);
+            emit_find(out, w, &c, 0, 9, "7");
+        }
     }
     n_cases
 }
